@@ -532,6 +532,71 @@ func (t *SymbolTable) Index(s string) uint64 {
 	}
 
 	return true""", None),
+    ("F0_unmodified_baseline_stageF", "harmless", "expressions.go", "", "", None),
+    ("FR1_Print_type_switch_dispatch", "harmless", "expressions.go",
+     [("""	for _, op := range *e {
+		switch op.Type() {
+		case OpTypeValue:
+			id := op.(Value).ID
+			switch id.Type() {
+			case TermTypeString:
+				err := s.Push(fmt.Sprintf("\\"%s\\"", symbols.Str(id.(String))))""",
+       """	for _, op := range *e {
+		switch o := op.(type) {
+		case Value:
+			id := o.ID
+			switch id.Type() {
+			case TermTypeString:
+				err := s.Push(fmt.Sprintf("\\"%s\\"", symbols.Str(id.(String))))"""),
+      ("""		case OpTypeUnary:
+			v, err := s.Pop()
+			if err != nil {
+				return "<invalid expression: unary operation failed to pop value>"
+			}
+			res := op.(UnaryOp).Print(v)""",
+       """		case UnaryOp:
+			v, err := s.Pop()
+			if err != nil {
+				return "<invalid expression: unary operation failed to pop value>"
+			}
+			res := o.Print(v)"""),
+      ("""		case OpTypeBinary:
+			right, err := s.Pop()
+			if err != nil {
+				return "<invalid expression: binary operation failed to pop right value>"
+			}
+			left, err := s.Pop()
+			if err != nil {
+				return "<invalid expression: binary operation failed to pop left value>"
+			}
+			res := op.(BinaryOp).Print(left, right)""",
+       """		case BinaryOp:
+			right, err := s.Pop()
+			if err != nil {
+				return "<invalid expression: binary operation failed to pop right value>"
+			}
+			left, err := s.Pop()
+			if err != nil {
+				return "<invalid expression: binary operation failed to pop left value>"
+			}
+			res := o.Print(left, right)""")],
+     None, None),
+    ("FR2_UnaryOp_Print_string_concatenation", "harmless", "expressions.go",
+     [('		out = fmt.Sprintf("(%s)", value)', '		out = "(" + value + ")"'),
+      ('		out = fmt.Sprintf("!%s", value)', '		out = "!" + value')],
+     None, None),
+    ("FM1_parens_elided_when_already_parenthesised", "mutation", "expressions.go",
+     '		out = fmt.Sprintf("(%s)", value)',
+     '		if strings.HasPrefix(value, "(") && strings.HasSuffix(value, ")") {\n			out = value\n		} else {\n			out = fmt.Sprintf("(%s)", value)\n		}',
+     "go_UnaryOp_Print_eq"),
+    ("FM2_length_printed_as_len", "mutation", "expressions.go",
+     '		out = fmt.Sprintf("%s.length()", value)', '		out = fmt.Sprintf("%s.len()", value)', "go_UnaryOp_Print_eq"),
+    ("FM3_GreaterThan_printed_as_less_than", "mutation", "expressions.go",
+     '		out = fmt.Sprintf("%s > %s", left, right)', '		out = fmt.Sprintf("%s < %s", left, right)', "go_BinaryOp_Print_eq"),
+    ("FM4_Print_result_when_two_values_left", "mutation", "expressions.go",
+     "	if len(*s) == 1 {\n		v, err := s.Pop()\n		if err != nil {\n			return \"<invalid expression: failed to pop result value>\"",
+     "	if len(*s) >= 1 {\n		v, err := s.Pop()\n		if err != nil {\n			return \"<invalid expression: failed to pop result value>\"",
+     "go_Expression_Print_eq"),
     ("U1_unsupported_construct_is_refused", "unsupported", "symbol.go",
      '''	*t = append(*t, s)
 
@@ -557,7 +622,7 @@ def pristine_datalog(dst):
     subprocess.run(["tar", "-x", "-C", dst], input=ar.stdout, check=True)
 
 
-NEEDED = ["Base", "Term", "Expr", "DTerm", "Symbols", "Datalog", "Authz", "Wire", "Token", "DEval", "GoSem", "Odometer"]
+NEEDED = ["Base", "Term", "Expr", "DTerm", "Symbols", "Datalog", "Authz", "Wire", "Token", "DEval", "GoSem", "Odometer", "Printer"]
 # a private GoSem.v (stage E adds set_idx / down_loop to the prelude) replaces the committed one in the private base
 GOSEM = os.environ.get("GENFN_GOSEM", "")
 
@@ -648,6 +713,7 @@ def main():
                 continue
             stage_d = name.startswith("D")
             stage_e = name.startswith("E")
+            stage_f = name.startswith("F")
             shutil.rmtree(SCRATCH, ignore_errors=True)
             os.makedirs(os.path.join(SCRATCH, "coq"))
             pristine_datalog(os.path.join(SCRATCH, "repo"))
@@ -713,6 +779,18 @@ def main():
                 # stage E: GenFnSetProofs.v (go_Term_Equal_eq, loop lemmas), then GenFnDatalogProofs.v
                 for fn, imp in (("GenFnSetProofs.v", "From BV Require Import GeneratedFn GenFnProofs."),
                                 ("GenFnDatalogProofs.v", "From BV Require Import GeneratedFn GenFnProofs GenFnSetProofs.")):
+                    proofs = open(os.path.join(PROOFS, fn)).read()
+                    assert imp in proofs, fn
+                    proofs = proofs.replace(imp, imp.replace("From BV ", "From BVS "))
+                    pp = os.path.join(SCRATCH, "coq", fn)
+                    open(pp, "w").write(proofs)
+                    r2 = sh(["timeout", "1800", "coqc"] + args + [pp])
+                    if r2.returncode != 0:
+                        break
+            if stage_f and r2.returncode == 0:
+                # stage F: GenFnEvalProofs.v (slice lemmas), then GenFnPrintProofs.v
+                for fn, imp in (("GenFnEvalProofs.v", "From BV Require Import GeneratedFn GenFnProofs."),
+                                ("GenFnPrintProofs.v", "From BV Require Import GeneratedFn GenFnProofs GenFnEvalProofs.")):
                     proofs = open(os.path.join(PROOFS, fn)).read()
                     assert imp in proofs, fn
                     proofs = proofs.replace(imp, imp.replace("From BV ", "From BVS "))
